@@ -35,8 +35,16 @@ def call_builtin(world, eng, p, h, args, kws):
         trusted('rx.subject.Subject: synchronous fan-out to subscribers in subscription order')
         k = p.ghost.get('n_subjects', 0); p.ghost['n_subjects'] = k + 1
         return [(p, Host('subject', chan=OUTER + 10 * k, name=f'subject{k}'))]
+    if isinstance(getattr(h, 'obj', None), type) and issubclass(h.obj, tuple) and hasattr(h.obj, '_fields'):
+        # namedtuple class defined by the repository (e.g. StateDef): a plain tuple of its fields
+        fields = list(h.obj._fields)
+        vals = dict(zip(fields, args)); vals.update(kws)
+        return [(p, tuple(vals.get(f) for f in fields))]
     if n == 'rxsci.state.state_topology.StateTopology':
         return [(p, Host('topology', name='topology_new'))]
+    if n.startswith('rx.core.operators.') or n.startswith('rx.operators.'):
+        trusted(f'RxPY plain operator {short}: documented list semantics (assumed, DESIGN 3.4)')
+        return [(p, Host('rxop', name=short, args=list(args), kws=dict(kws)))]
     if short == 'CompositeDisposable':
         return [(p, Host('disposable', items=list(args)))]
     if short == 'Disposable':
